@@ -11,7 +11,6 @@ Definition map_range_sites : list (string * string * string) :=
    ("internal/parser/go_generator.go", "GoGenerator.Generate", "keyed-insert");
    ("internal/parser/java_generator.go", "JavaGenerator.Generate", "keyed-insert");
    ("internal/parser/py_generator.go", "PythonGenerator.generateCodeForPacket", "collect-then-sort");
-   ("internal/parser/rust_generator.go", "NewRustGenerator", "effects");
    ("internal/parser/rust_generator.go", "RustGenerator.Generate", "keyed-insert");
    ("internal/parser/rust_generator.go", "RustGenerator.generateLibCode", "collect-then-sort")].
 
